@@ -115,7 +115,60 @@ struct Disp(u32);
 impl core::fmt::Display for Disp { fn fmt(&self, f: &mut core::fmt::Formatter) -> core::fmt::Result { write!(f, "#{}", self.0) } }
 impl serde::Serialize for Disp { fn serialize<S: serde::Serializer>(&self, s: S) -> Result<S::Ok, S::Error> { s.collect_str(self) } }
 
+/// The input bytes read as a tape of choices (zeros after the end), for the value-driven operations.
+struct Tp<'a>(&'a [u8], usize);
+impl Tp<'_> {
+    fn b(&mut self) -> u8 { let x = self.0.get(self.1).copied().unwrap_or(0); self.1 += 1; x }
+    fn u16(&mut self) -> u16 { (self.b() as u16) << 8 | self.b() as u16 }
+    fn u32(&mut self) -> u32 { (self.u16() as u32) << 16 | self.u16() as u32 }
+    fn u64(&mut self) -> u64 { if self.b() % 4 == 0 { [0, 23, 24, 255, 256, u32::MAX as u64, u64::MAX][self.b() as usize % 7] } else { (self.u32() as u64) << 32 | self.u32() as u64 } }
+    fn bound<T>(&mut self, x: T) -> core::ops::Bound<T> { match self.b() % 3 { 0 => core::ops::Bound::Included(x), 1 => core::ops::Bound::Excluded(x), _ => core::ops::Bound::Unbounded } }
+    fn opt<T>(&mut self, x: T) -> Option<T> { if self.b() % 3 == 0 { None } else { Some(x) } }
+}
+
+/// C01 in every configuration: values of the types that exist without `alloc`, generated from the tape, encoded into a stack
+/// buffer and decoded back. Verdict: `o<digest of the value>` or the stage that failed (enc / dec / neq).
+fn roundtrips(input: &[u8], o: &mut Out) {
+    use core::ops::Bound;
+    let mut t = Tp(input, 0);
+    macro_rules! rt { ($name:expr, $ty:ty, $v:expr) => {{
+        let v: $ty = $v;
+        let mut buf = [0u8; 384];
+        let r: Result<(), &'static str> = (|| {
+            let n = { let mut c = minicbor::encode::write::Cursor::new(&mut buf[..]); minicbor::encode(&v, &mut c).map_err(|_| "enc")?; c.position() };
+            if minicbor::len(&v) != n { return Err("len") }
+            let mut d = Decoder::new(&buf[.. n]);
+            let back: $ty = d.decode().map_err(|_| "dec")?;
+            if d.position() != n { return Err("pos") }
+            if back == v { Ok(()) } else { Err("neq") }
+        })();
+        o.rec($name, r.map(|_| digest(&v)).map_err(|k| Cls(k, None)), 0)
+    }} }
+    let (a, b, c) = (t.b(), t.u16(), t.u64());
+    rt!("RT:Bound<u32>", Bound<u32>, { let x = t.u32(); t.bound(x) });
+    rt!("RT:(u8,Bound<i16>,Option<u8>)", (u8, Bound<i16>, Option<u8>), { let x = t.u16() as i16; let y = t.b(); (a, t.bound(x), t.opt(y)) });
+    rt!("RT:[Bound<u8> x 3]", [Bound<u8>; 3], [t.bound(a), t.bound(1), t.bound(255)]);
+    rt!("RT:Option<Bound<u64>>", Option<Bound<u64>>, { let x = t.bound(c); t.opt(x) });
+    rt!("RT:Result<Bound<u8>,()>", Result<Bound<u8>, ()>, if t.b() % 2 == 0 { Ok(t.bound(a)) } else { Err(()) });
+    rt!("RT:(Bound<()>,u8)", (Bound<()>, u8), (t.bound(()), a));
+    rt!("RT:Bound<Bound<u8>>", Bound<Bound<u8>>, { let x = t.bound(a); t.bound(x) });
+    rt!("RT:Bound<[u8 x 0]>", Bound<[u8; 0]>, t.bound([]));
+    rt!("RT:(Range<u8>,RangeInclusive<i8>,())", (core::ops::Range<u8>, core::ops::RangeInclusive<i8>, ()), (a .. t.b(), (t.b() as i8) ..= (a as i8), ()));
+    rt!("RT:(RangeFrom<u16>,RangeTo<u16>,RangeToInclusive<u8>)", (core::ops::RangeFrom<u16>, core::ops::RangeTo<u16>, core::ops::RangeToInclusive<u8>), (b .., .. t.u16(), ..= a));
+    rt!("RT:[() x 2]", [(); 2], [(), ()]);
+    rt!("RT:(Option<()>,[u8 x 0],Option<[u8 x 0]>,u8)", (Option<()>, [u8; 0], Option<[u8; 0]>, u8), (t.opt(()), [], t.opt([]), a));
+    rt!("RT:Duration", core::time::Duration, core::time::Duration::new(c >> (t.b() % 64), t.u32() % 1_000_000_000));
+    rt!("RT:ints", (u8, u16, u32, u64, i8, i16, i32, i64, bool, char), (a, b, t.u32(), c, t.b() as i8, t.u16() as i16, t.u32() as i32, t.u64() as i64, a % 2 == 0, char::from_u32(t.u32() % 0x11_0000).unwrap_or('x')));
+    rt!("RT:nonzero", (core::num::NonZeroU8, core::num::NonZeroI64, core::num::Wrapping<u16>), (core::num::NonZeroU8::new(a | 1).unwrap(), core::num::NonZeroI64::new((c as i64) | 1).unwrap(), core::num::Wrapping(b)));
+    rt!("RT:Int", Int, if t.b() % 2 == 0 { Int::from(c) } else { Int::try_from(-1i128 - c as i128).unwrap() });
+    rt!("RT:Tagged<7,Bound<u8>>", Tagged<7, Bound<u8>>, Tagged::new(t.bound(a)));
+    rt!("RT:ByteArray<4>", minicbor::bytes::ByteArray<4>, minicbor::bytes::ByteArray::from([a, t.b(), t.b(), t.b()]));
+    rt!("RT:[Option<Bound<u8>> x 2]", [Option<Bound<u8>>; 2], { let x = t.bound(a); let y = t.bound(0); [t.opt(x), t.opt(y)] });
+    rt!("RT:(u8,)x12", (u8, u8, u8, u8, u8, u8, u8, u8, u8, u8, u8, Bound<u8>), (a, 1, 2, 3, 4, 5, 6, 7, 8, 9, 10, t.bound(a)));
+}
+
 fn run(input: &[u8], o: &mut Out) {
+    roundtrips(input, o);
     // ---- accessors -------------------------------------------------------------------------
     macro_rules! acc { ($name:expr, |$d:ident| $e:expr) => {{ let mut $d = Decoder::new(input); let r = $e; let p = $d.position(); o.rec($name, r.map(|v| digest(&v)).map_err(|e| eclass(&e)), p) }} }
     acc!("bool", |d| d.bool()); acc!("u8", |d| d.u8()); acc!("u16", |d| d.u16()); acc!("u32", |d| d.u32()); acc!("u64", |d| d.u64());
